@@ -19,7 +19,7 @@ package spine
 //@ ghost spawnn int
 //@ ghost spawnfn map[int]int
 // everything a Publish may change (it runs the core handlers synchronously)
-//@ modset PUBLISH = evn, ev, dn, dh, dp, dsp, world, Events.handlers, spawn
+//@ modset PUBLISH = evn, ev, dn, dh, dp, dsp, world, Events.handlers, spawn, outmisc
 
 // shared macros
 //@ define roleok(f, r) = f.Role() == model.RoleTypeSpecial || f.Role() == r
@@ -219,7 +219,7 @@ package spine
 // world and (un)subscribe handlers, but cannot reach the private snapshot Publish iterates over.
 //@ iface api.EventHandlerInterface.HandleEvent
 //@   ensures dn == old(dn) + 1 && dh == store(old(dh), old(dn), self) && dp == store(old(dp), old(dn), p0) && dsp == store(old(dsp), old(dn), spawnn)
-//@   modifies dn, dh, dp, dsp, world, Events.handlers
+//@   modifies dn, dh, dp, dsp, world, Events.handlers, outmisc
 
 //@ func (*events).subscribe
 //@   requires r != nil
@@ -461,3 +461,54 @@ package spine
 //@   ensures[C13] bounded: len(c.reqMsgCache) <= 21
 //@   ensures[C13] older: forall k int :: k < K ==> wiremsg[W][k] == old(wiremsg)[W][k] && sentctr[W][k] == old(sentctr)[W][k]
 //@   modifies @WIRE, c.msgNum, map(gomap[model.MsgCounterType]string), held
+
+// ---------------------------------------------------------------------------------------
+// inbound command processing (C01, C03)
+
+// resolution of a local feature address (body: C07); linked to the interface-level view used by the registries
+//@ func (*DeviceLocal).FeatureByAddress trusted
+//@   requires r != nil && address != nil
+//@   ensures result == asIface(r, api.DeviceLocalInterface).FeatureByAddress(address)
+//@   modifies held
+
+// What a local feature does with a message (assumed at the call in ProcessCmd; proved on
+// (*FeatureLocal).HandleMessage and (*NodeManagement).HandleMessage).
+//@ iface api.FeatureLocalInterface.HandleMessage
+//@   requires message != nil && message.FeatureRemote != nil && message.RequestHeader != nil && message.RequestHeader.AddressDestination != nil
+//@   let S = message.FeatureRemote.Device().Sender()
+//@   let K = rn[S]
+//@   let CLS = message.CmdClassifier
+//@   define ANS(k) = answers(S, k, message.RequestHeader, self.Address())
+//@   ensures others: forall s any :: s != S ==> rn[s] == old(rn)[s]
+//@   ensures older: forall k int :: k < K ==> rcls[S][k] == old(rcls)[S][k] && rerr[S][k] == old(rerr)[S][k]
+//@   ensures rejected-silent: result != nil ==> rn[S] == K
+//@   ensures read: result == nil && CLS == model.CmdClassifierTypeRead ==> rn[S] == K + 1 && rcls[S][K] == model.CmdClassifierTypeReply && ANS(K)
+//@   ensures passive: result == nil && (CLS == model.CmdClassifierTypeReply || CLS == model.CmdClassifierTypeNotify || CLS == model.CmdClassifierTypeResult) ==> rn[S] == K
+//@   ensures call: result == nil && CLS == model.CmdClassifierTypeCall ==> rn[S] == K || (rn[S] == K + 1 && rcls[S][K] == model.CmdClassifierTypeReply && ANS(K))
+//@   ensures write: result == nil && CLS == model.CmdClassifierTypeWrite ==> rn[S] == K || (rn[S] == K + 1 && rcls[S][K] == model.CmdClassifierTypeResult && ANS(K))
+//@   ensures bounded: K <= rn[S] && rn[S] <= K + 1
+//@   modifies @RESP, @PUBLISH, world, held, spawn
+
+//@ func (*DeviceLocal).ProcessCmd
+//@   requires r != nil && remoteDevice != nil && datagram.Header.AddressDestination != nil && datagram.Header.AddressSource != nil && datagram.Header.CmdClassifier != nil && len(datagram.Payload.Cmd) > 0
+//@   requires remoteDevice.FeatureByAddress(datagram.Header.AddressSource) != nil
+//@   let RF = remoteDevice.FeatureByAddress(datagram.Header.AddressSource)
+//@   let S = remoteDevice.FeatureByAddress(datagram.Header.AddressSource).Device().Sender()
+//@   let K = rn[S]
+//@   let LF = asIface(r, api.DeviceLocalInterface).FeatureByAddress(datagram.Header.AddressDestination)
+//@   let CLS = *datagram.Header.CmdClassifier
+//@   let ACK = datagram.Header.AckRequest != nil && *datagram.Header.AckRequest
+//@   define HDR = datagram.Header
+//@   define isResp(k) = rcls[S][k] == model.CmdClassifierTypeResult || rcls[S][k] == model.CmdClassifierTypeReply
+//@   ensures[C01] no-result-for-result: CLS == model.CmdClassifierTypeResult ==> forall k int :: K <= k && k < rn[S] ==> rcls[S][k] != model.CmdClassifierTypeResult
+//@   ensures[C01] unknown-destination: LF == nil && CLS != model.CmdClassifierTypeResult ==> rn[S] == K + 1 && rcls[S][K] == model.CmdClassifierTypeResult && rerr[S][K] == model.ErrorNumberTypeDestinationUnknown && rref[S][K] == old(datagram.Header.MsgCounter) && rdst[S][K] == old(datagram.Header.AddressSource) && result != nil
+//@   ensures[C01] rejected: LF != nil && result != nil && CLS != model.CmdClassifierTypeResult ==> rn[S] == K + 1 && rcls[S][K] == model.CmdClassifierTypeResult && rerr[S][K] != model.ErrorNumberTypeNoError && rref[S][K] == old(datagram.Header.MsgCounter) && rdst[S][K] == old(datagram.Header.AddressSource) && rsdev[S][K] == LF.Address().Device
+//@   ensures[C01] accepted-read: result == nil && CLS == model.CmdClassifierTypeRead ==> rn[S] == K + 1 && rcls[S][K] == model.CmdClassifierTypeReply && rref[S][K] == old(datagram.Header.MsgCounter) && rdst[S][K] == old(datagram.Header.AddressSource) && rsdev[S][K] == LF.Address().Device
+//@   ensures[C01] accepted-ack: result == nil && ACK && (CLS == model.CmdClassifierTypeCall || CLS == model.CmdClassifierTypeReply || CLS == model.CmdClassifierTypeNotify) ==> rn[S] >= K + 1 && rn[S] <= K + 2 && rcls[S][rn[S] - 1] == model.CmdClassifierTypeResult && rerr[S][rn[S] - 1] == model.ErrorNumberTypeNoError && rref[S][rn[S] - 1] == old(datagram.Header.MsgCounter) && rdst[S][rn[S] - 1] == old(datagram.Header.AddressSource) && rsdev[S][rn[S] - 1] == LF.Address().Device && (rn[S] == K + 2 ==> rcls[S][K] == model.CmdClassifierTypeReply && CLS == model.CmdClassifierTypeCall)
+//@   ensures[C01] accepted-noack: result == nil && !ACK && (CLS == model.CmdClassifierTypeCall || CLS == model.CmdClassifierTypeReply || CLS == model.CmdClassifierTypeNotify) ==> rn[S] <= K + 1 && (rn[S] == K + 1 ==> rcls[S][K] == model.CmdClassifierTypeReply && CLS == model.CmdClassifierTypeCall)
+//@   ensures[C01] accepted-result: result == nil && CLS == model.CmdClassifierTypeResult ==> rn[S] == K
+//@   ensures[C01] at-most: rn[S] <= K + 2 && rn[S] >= K
+//@   ensures[C01] others: forall s any :: s != S ==> rn[s] == old(rn)[s]
+//@   ensures[C03] gate-permission: CLS == model.CmdClassifierTypeWrite && LF != nil && cmdHasData(datagram.Payload.Cmd[0]) && cmdHasFct(datagram.Payload.Cmd[0]) && !(has(LF.Operations(), cmdFct(datagram.Payload.Cmd[0])) && LF.Operations()[cmdFct(datagram.Payload.Cmd[0])].Write()) ==> result != nil && rn[S] == K + 1 && rcls[S][K] == model.CmdClassifierTypeResult && rerr[S][K] != model.ErrorNumberTypeNoError && hmn == old(hmn)
+//@   ensures[C03] gate-binding: CLS == model.CmdClassifierTypeWrite && LF != nil && !asIface(r, api.DeviceLocalInterface).BindingManager().HasLocalFeatureRemoteBinding(LF.Address(), RF.Address()) ==> result != nil && rn[S] == K + 1 && rcls[S][K] == model.CmdClassifierTypeResult && rerr[S][K] != model.ErrorNumberTypeNoError && hmn == old(hmn)
+//@   modifies @RESP, @PUBLISH, world, held, spawn, hmn
